@@ -187,6 +187,9 @@ export const PROBES = [
   { id: "namespace-re-export-through-star", files: { "entry.ts": 'import * as ns from "./a";\nparse.buildParsers<{ X: typeof ns }>();\n', "a.ts": 'export * from "./b";\nexport * as inner from "./b";\n', "b.ts": 'export * from "./a";\nexport const y = "s";\n' } },
   { id: "tag-carried-by-every-member", files: { "entry.ts": 'type Base = { id: string };\ntype U = (Base & { type: "CRON" | "EVENT"; c: 1 }) | (Base & { type: "EVENT"; e: 2 });\nparse.buildParsers<{ X: U }>();\n' } },
   { id: "union-alias-mentions-itself", files: { "entry.ts": 'type B = "b";\ntype C = C | B;\nparse.buildParsers<{ X: Record<C, string> }>();\n' } },
+  { id: "default-export-by-list-type-and-value", files: { "entry.ts": 'import Config from "./a";\ntype D = typeof Config.defaults;\nparse.buildParsers<{ X: D; Y: Config }>();\n', "a.ts": "type Config = { a: 1 };\nconst Config = { defaults: { n: 1 } };\nexport { Config as default };\n" } },
+  { id: "default-export-by-list-value-as-type", files: { "entry.ts": 'import D from "./a";\ntype T = D.Foo;\nparse.buildParsers<{ X: T }>();\n', "a.ts": "const v = { Foo: 1 };\nexport { v as default };\n" } },
+  { id: "import-type-qualified-name", files: { "entry.ts": '// a long first line so that offsets in this file exceed the length of b.ts ........................................................................................................................\ntype X = import("./b").Inner.BT;\ntype Y = typeof import("./b").inner.v;\nparse.buildParsers<{ X: X; Y: Y }>();\n', "b.ts": "export const inner = 1;\n" } },
   { id: "entry-missing", files: { "other.ts": "export type A = 1;" } },
   { id: "entry-unparsable", files: { "entry.ts": "type A = {{{" } },
   { id: "crlf-bom", files: { "entry.ts": "﻿type A = {\r\n  a: symbol\r\n};\r\nparse.buildParsers<{ X: A }>();\r\n" } },
